@@ -111,10 +111,10 @@ Proof.
 Qed.
 
 (* --- a key (in key position) that is followed by something other than the colon ------------------------ *)
-Theorem rejects_missing_colon_proof : forall p a tok lead k w2 s2 st,
+Theorem rejects_missing_colon_strong : forall p a tok lead k w2 s2 st,
   cur3 (pz p) a tok (lead ++ k ++ w2 ++ s2) -> lead_ok p lead false -> pst p = S_ObjectKey :: st ->
   jstring k -> ws w2 -> is_ws (hd0 s2) = false -> hd0 s2 <> 58 ->
-  rejected_at p (len a + len tok + len lead + len k + len w2).
+  rejected_to p (len a + len tok + len lead + len k + len w2) s2 (fun n => n = false).
 Proof.
   intros p a tok lead k w2 s2 st Hc Hl Hst Hk Hw Hws H58.
   destruct (jstring_hd k (w2 ++ s2) Hk) as (t & Et).
@@ -122,7 +122,7 @@ Proof.
   assert (Hh : hd0 (k ++ w2 ++ s2) = 34) by (rewrite Et; reflexivity).
   destruct (next_front p a tok lead (k ++ w2 ++ s2) false S_ObjectKey Hc Hl) as (z1 & H1 & Hn);
     [rewrite Hh; reflexivity|rewrite Hh; lia|exact Htop|].
-  rewrite Hh in Hn. unfold rejected_at. rewrite Hn.
+  rewrite Hh in Hn. unfold rejected_to. rewrite Hn.
   rewrite not_bracket_body by (try reflexivity; lia).
   cbn [Z.eqb Pos.eqb S_ObjectKey]. unfold next_key. cbn [Z.eqb Pos.eqb negb].
   pose proof (cur3_skip _ _ _ _ H1) as H2.
@@ -137,11 +137,16 @@ Proof.
   destruct (takew_ws w2 s2 Hw Hws) as [E1 E2]. rewrite E1, E2 in H4.
   rewrite (cur3_pk0 _ _ _ _ H4). cbn [option_bind].
   replace (negb (hd0 s2 =? 58)) with true by lia.
-  destruct (fail_to p _ _ _ _ false (len a + len tok + len lead + len k + len w2) anyb _ H4 eq_refl)
-    as (p' & a' & tok' & E & Hp & Hst' & _); [|exact I|].
-  { rewrite <- Ek. rewrite !len_app. lia. }
-  exists p'. auto.
+  apply (fail_to p _ _ _ _ false (len a + len tok + len lead + len k + len w2) (fun n => n = false) _ H4 eq_refl);
+    [|reflexivity].
+  rewrite <- Ek. rewrite !len_app. lia.
 Qed.
+
+Theorem rejects_missing_colon_proof : forall p a tok lead k w2 s2 st,
+  cur3 (pz p) a tok (lead ++ k ++ w2 ++ s2) -> lead_ok p lead false -> pst p = S_ObjectKey :: st ->
+  jstring k -> ws w2 -> is_ws (hd0 s2) = false -> hd0 s2 <> 58 ->
+  rejected_at p (len a + len tok + len lead + len k + len w2).
+Proof. intros. eapply rejected_to_at. eapply rejects_missing_colon_strong; eauto. Qed.
 
 (* --- in key position, anything that is not a string: every byte other than the quote and } ------------------
    (a comma directly in key position is a separator and belongs to the lead; a second comma is rejected) *)
